@@ -88,7 +88,7 @@ Definition deserialize_boc_header (d : list N) : result boc_header :=
         else if bytes_eqb magic boc_magic_idx_crc then
           bind (byte_at d 4) (fun sb => Ok (true, true, false, N.to_nat sb))
         else Err EBoc) (fun '(has_idx, has_crc, has_cache, size) =>
-  if (dlen - 5 <? 1 + 5 * size)%nat then Err EBoc else
+  if (dlen - 5 <? 1 + 3 * size)%nat then Err EBoc else
   bind (byte_at d 5) (fun offb =>
   let off := N.to_nat offb in
   if (size =? 0)%nat then Err EValue else     (* range(6, end, 0) *)
